@@ -90,6 +90,10 @@ def family(rp):
     f.add("operator-mod-on-str", "def r := \"a\" mod 2", "reject")
     f.add("operator-pow-int", "def r: Int := 2 ^ 3", "accept")
     f.add("operator-floor-div-int", "def r: Int := 7 // 2", "accept")
+    f.add("operator-true-div-int-into-int", "def r: Int := 7 / 2", "reject")
+    f.add("operator-true-div-int-into-float", "def r: Float := 7 / 2", "accept")
+    f.add("operator-true-div-returned-as-int", "def half(x: Int) -> Int =>\n    return x / 2", "reject")
+    f.add("operator-floor-div-into-float-variable", "def r: Float := 7 // 2", "accept")
     f.add("literal-real-into-int", "def r: Int := 2.5", "reject")
     f.add("literal-int-into-str", "def r: Str := 2", "reject")
     f.add("literal-str-into-int", "def r: Int := \"s\"", "reject")
@@ -190,6 +194,78 @@ def ob_call_parameters(run, mir, rp, fam):
 
 UNIFY_FUN_RS = "src/check/constrain/unify/function.rs"
 EXPECTED_RS = "src/check/constrain/constraint/expected.rs"
+
+
+def call_family(rp):
+    cls = "class Animal(def name: Str)\nclass Dog(def n: Str): Animal(n)\n"
+    f = e2.Family(rp)
+    f.add("callresult-subclass-into-declared-parent", cls + "def factory() -> Animal => Dog(\"x\")", "accept")
+    f.add("callresult-parent-into-declared-subclass", cls + "def factory() -> Dog => Animal(\"x\")", "reject")
+    f.add("callresult-float-function-into-int", "def scale(x: Float) -> Float => x * 2.0\ndef as_int() -> Int => scale(1.0)", "reject")
+    f.add("callresult-int-function-into-float", "def twice(x: Int) -> Int => x * 2\ndef as_float() -> Float => twice(1)", "accept")
+    f.add("callresult-same-type", "def twice(x: Int) -> Int => x * 2\ndef r: Int := twice(1)", "accept")
+    f.add("callresult-unrelated-type", "def twice(x: Int) -> Int => x * 2\ndef r: Str := twice(1)", "reject")
+    f.add("callresult-float-into-int-variable", "def scale(x: Float) -> Float => x * 2.0\ndef r: Int := scale(1.0)", "reject")
+    return f
+
+
+def ob_call_result(run, mir, rp, fam):
+    ob = run.ob("call-result-direction", "E2", "gen_call FunctionCall arm, callee found in the context (a declared function or a constructor): exactly one "
+                "`function call` constraint is added, with parent = the call expression and child = the callee's declared return type at the call's "
+                "position (the call is at least its declared result; consumers then require `declared slot >= call`), after the arguments were "
+                "checked by call_parameters against that callee's parameters", ["gen_call (FunctionCall)"])
+    fn = e2.find1(mir, file=CALL_RS, name="gen_call")
+    ex = Exec(mir, max_paths=20000)
+    st = State()
+    name_ast, _ = ckern.mk_ast("name", opq("name.node", "Node"))
+    argsv = opq("args", "Vec<AST>")
+    node = ckern.mk_node("FunctionCall", {"name": Ref(ex.new_cell(st, name_ast)), "args": argsv})
+    ast, ast_pos = ckern.mk_ast("ast", node)
+    astr = Ref(ex.new_cell(st, ast))
+    env, ev = ckern.sym_env(ex, st)
+    ctx, constr = ckern.refs(ex, st, "ctx", "constr")
+    ends = e2.run_kernel(run, ex, fn, [astr, env, ctx, constr], st)
+    ff = e2.rust_struct("src/check/context/function/mod.rs", "Function")
+    claims, n = [], 0
+    for p in ends:
+        if result_kind(p) != "Ok":
+            continue
+        look = [e_ for e_ in p.events if e_["name"].endswith("LookupFunction::function")]
+        if not look:
+            continue
+        n += 1
+        s = p.state
+        c = conj(p.cond)
+        fun = ex.project(s, ex.project(s, look[0]["ret"], ("v", "Ok")), ("f", 0), "Function")
+        ret_ty = ex.to_val(s, ex.project(s, fun, ("f", ff.index("ret_ty")), "Name"))
+        fargs = ex.to_val(s, ex.project(s, fun, ("f", ff.index("arguments")), "Vec<FunctionArg>"))
+        adds = [a for a in calls(p, "ConstrBuilder::add") if isinstance(a["args"][1], StrC) and a["args"][1].s == "function call"]
+        cps = calls(p, "call_parameters")
+        if len(adds) != 1 or len(cps) != 1:
+            claims.append(z3.Not(c))
+            continue
+        a = adds[0]
+        child_ok = z3.BoolVal(False)
+        for nw in calls(p, "Expected::new"):
+            second = nw["args"][1]
+            second = ex.read_ref(s, second) if isinstance(second, Ref) else second
+            if z3.eq(ex.to_val(s, nw["ret"]), a["argvals"][3]) and isinstance(second, Agg) and second.variant == "Type":
+                child_ok = z3.And(ex.to_val(s, second.fields[0]) == ret_ty, nw["argvals"][0] == ex.to_val(s, ast_pos))
+        whole = ex.to_val(s, ex.app("Expected.From::from", [astr], "Expected", s))
+        claims.append(z3.Implies(c, z3.And(a["argvals"][2] == whole, child_ok, a["argvals"][4] == ex.to_val(s, env),
+                                           cps[0]["argvals"][1] == fargs, cps[0]["argvals"][3] == ex.to_val(s, argsv),
+                                           z3.BoolVal(p.events.index(cps[0]) < p.events.index(a)))))
+    if not n:
+        raise Unsupported("context-function branch not reached")
+    cf = call_family(rp)
+    e2.prove(run, ob, ex, [], conj(claims), {}, cf.as_replay("call-result:"))
+    if ob.status == "discharged":
+        k, bad = cf.run()
+        run.validated += k
+        if bad:
+            ob.status = "pending"
+            ob.inconclusive(f"call-result family disagrees although the kernel is as specified: {bad[:2]}")
+    run.samples.append({"obligation": ob.id, "paths": n})
 
 
 def ob_method_parameters(run, mir, rp, fam):
@@ -1385,7 +1461,7 @@ def run(run):
                "outside: that a violation is still caught in every nesting context (branch forking in ConstrBuilder); the accepted-exactly-when direction for whole programs")
     run.trusted += ["rustc nightly MIR dump", "mirsym MIR semantics", "z3"]
     run.bounds = {"paths": "all paths of each kernel with loops cut at their headers"}
-    for f in (ob_call_parameters, ob_method_parameters, ob_fn_value_arguments, ob_access_direction, ob_shadow_mapping, ob_operator_typing, ob_flow_constraints, ob_return, ob_id_from_var, ob_initialiser_scope, ob_fun_body, ob_fun_body_scope, ob_branch_scope, ob_arm_scope, ob_unify_type):
+    for f in (ob_call_parameters, ob_call_result, ob_method_parameters, ob_fn_value_arguments, ob_access_direction, ob_shadow_mapping, ob_operator_typing, ob_flow_constraints, ob_return, ob_id_from_var, ob_initialiser_scope, ob_fun_body, ob_fun_body_scope, ob_branch_scope, ob_arm_scope, ob_unify_type):
         try:
             f(run, mir, rp, fam)
         except Unsupported as e:
